@@ -1364,13 +1364,15 @@ Definition conn_fine (st : conn) (l : label) : bool :=
 Definition ids_wf (st : conn) : bool :=
   match c_send_next st with Some id => is_local_init (c_role st) id | None => true end.
 
-(* Idle records do exist for a moment after a connection error (a record inserted for a frame that is then refused with the
-   reset quota exhausted): the shape is only demanded while the connection has no error *)
+(* Idle records do exist for a moment: Inner::send_reset inserts a record for an unknown stream and, with the reset quota
+   exhausted, returns the GOAWAY error before resetting it (the connection error is recorded by the next section).  They
+   are exempt here - the theorems that assume wf_shape do not speak about them - and the shape is only demanded while the
+   connection has no error *)
 Definition shapes_ok (st : conn) : bool :=
   ids_wf st &&
   match c_conn_error st with
   | Some _ => true
-  | None => forallb (fun kr => wf_shape (c_role st) (s_id (snd kr)) (snd kr)) (c_slab st)
+  | None => forallb (fun kr => is_idle (s_state (snd kr)) || wf_shape (c_role st) (s_id (snd kr)) (snd kr)) (c_slab st)
   end.
 
 (* 0 = agreement; otherwise 10 * (index of the label + 1) + reason:
